@@ -254,11 +254,10 @@ impl GraphEngine {
             return Ok(id);
         }
 
-        // It's a new label.
-        // We update memory first to get the authoritative ID.
-        let returned_id = interner.get_or_create(name);
+        // It's a new label. Log it first: if the log write fails the label must not exist
+        // in memory either, or later transactions would durably reference an unlogged id.
+        let returned_id = interner.next_id();
 
-        // Durability: Log to WAL (post-facto, but before return)
         // We wrap this in a mini-transaction to ensure replayability.
         {
             let txid = self.next_txid.fetch_add(1, Ordering::Relaxed);
@@ -271,6 +270,8 @@ impl GraphEngine {
             wal.append(&WalRecord::CommitTx { txid })?;
             wal.fsync()?;
         }
+        let created_id = interner.get_or_create(name);
+        debug_assert_eq!(created_id, returned_id);
 
         // Update Published Snapshot
         let snapshot = interner.snapshot();
